@@ -175,6 +175,27 @@ let handle () =
    | "TREV" ->
      let v = nvec () in
      List.iter (fun ((a, b), c) -> emit (string_of_n a); emit (string_of_n b); emit (sgz c)) (m_trev v)
+   | "EXPORT" ->
+     let norb = nnat () in
+     let nrows = nint () in
+     let code = if nrows = 0 then m_jw_code (nat_of_int (2 * int_of_nat norb))
+                else rep nrows (fun () -> let k = nint () in rep k nnat) in
+     let v = nvec () in
+     List.iter (fun (ix, c) -> emit (string_of_n ix); emit (sgz c)) (m_export norb code v)
+   | "IMPORT" ->
+     let norb = nnat () in
+     let nrows = nint () in
+     let code = if nrows = 0 then m_jw_code (nat_of_int (2 * int_of_nat norb))
+                else rep nrows (fun () -> let k = nint () in rep k nnat) in
+     let thr = nz () in
+     let ns = nint () in
+     let st = rep ns (fun () -> let ix = nn () in let c = ngz () in (ix, c)) in
+     let secs = m_import norb code thr st in
+     emit (string_of_int (List.length secs));
+     List.iter (fun ((na, nb), amps) ->
+         emit (string_of_int (int_of_nat na)); emit (string_of_int (int_of_nat nb));
+         emit (string_of_int (List.length amps));
+         List.iter (fun ((a, b), c) -> emit (string_of_n a); emit (string_of_n b); emit (sgz c)) amps) secs
    | "INNER" ->
      let norb = nnat () in let x = nvec () in let y = nvec () in
      emit (sgz (m_inner norb x y))
